@@ -122,10 +122,19 @@ type vf33Outcome struct {
 	Hang     bool
 	Alloc    uint64
 	Wire     uint64 // bytes the server side wrote
+	Harness  uint64 // bytes produced by the harness' mutators
 	Quiesced bool
 }
 
-func (o vf33Outcome) bound() uint64 { return vf33AllocBound + vf33AllocPerWireByte*o.Wire }
+// bound: Wire = bytes delivered to the client; Harness = bytes the mutators produced (they are allocated and pass
+// through the record layer even when the client has already gone away and nothing is delivered)
+func (o vf33Outcome) bound() uint64 {
+	w := o.Wire
+	if o.Harness > w {
+		w = o.Harness
+	}
+	return vf33AllocBound + vf33AllocPerWireByte*w
+}
 
 // vf33Drive runs the client's Handshake followed by one Read against whatever the server side does; the server side is
 // closed as soon as both ends are blocked reading (nothing can happen any more) or when serverFn returns.
@@ -265,6 +274,7 @@ func TestVerifC33MutatedFlight13(t *testing.T) {
 		s.CertRequest = rapid.IntRange(0, 5).Draw(rt, "certreq") == 0
 		muts := vf33GenMuts(rt, 7)
 		landed := map[int]bool{}
+		var mutBytes uint64
 		s.Mutate = func(idx int, typ uint8, raw []byte) []byte {
 			for _, m := range muts {
 				if m.Msg == idx {
@@ -275,6 +285,7 @@ func TestVerifC33MutatedFlight13(t *testing.T) {
 					}
 				}
 			}
+			mutBytes += uint64(len(raw))
 			return raw
 		}
 		keys := vfCertKeysFor(o, VersionTLS13, "")
@@ -303,6 +314,7 @@ func TestVerifC33MutatedFlight13(t *testing.T) {
 				srv.Write([]byte("hello from the server"))
 			}
 		})
+		out.Harness = mutBytes
 		desc := fmt.Sprintf("%s | flight hrr=%v(cookie %d) alps=%d compress=%d certreq=%v ticket=%v | mutations %v | post-handshake %d msgs", src, s.HRR, len(s.HRRCookie), s.ALPSCodepoint, s.CompressAlg, s.CertRequest, s.SendTicket, muts, len(post))
 		vf33Judge(rt, st, desc, out)
 		for _, m := range muts {
@@ -360,6 +372,7 @@ func TestVerifC33MutatedFlight12(t *testing.T) {
 		idx := 0
 		landed := false
 		encrypted := false
+		var mutBytes12 uint64
 		prep.SP.filter = func(rec []byte) []byte {
 			if encrypted || len(rec) < 5 {
 				return rec
@@ -387,6 +400,7 @@ func TestVerifC33MutatedFlight12(t *testing.T) {
 						msg = vf33Apply(msg, m)
 					}
 				}
+				mutBytes12 += uint64(len(msg))
 				idx++
 				outBody = append(outBody, msg...)
 			}
@@ -409,6 +423,7 @@ func TestVerifC33MutatedFlight12(t *testing.T) {
 				srv.Write([]byte("hello"))
 			}
 		})
+		out.Harness = mutBytes12
 		desc := fmt.Sprintf("%s | TLS %04x flight from upstream's server, mutations %v", src, ver, muts)
 		vf33Judge(rt, st, desc, out)
 		for _, m := range muts {
